@@ -96,12 +96,17 @@ def unserial(text: str) -> str:
 
 
 class TR(Base):
-    def __init__(self, count, dur, size, stream=0, stop_at=None, fail_at=None):
-        super().__init__(FrameCount.INDEFINITE if count is None else count, dur)
+    def __init__(self, count, dur, size, stream=0, stop_at=None, fail_at=None, postponed=False):
+        # `postponed`: constructed with FrameCount.POSTPONED; `_get_frame_count_()` resolves it to `count`
+        self._resolves_to = FrameCount.INDEFINITE if count is None else count
+        super().__init__(FrameCount.POSTPONED if postponed else self._resolves_to, dur)
         self.size = Size(*size)
         self.stream, self.stop_at, self.fail_at = stream, stop_at, fail_at
         self.calls = []
         self.definite = count is not None
+
+    def _get_frame_count_(self):
+        return self._resolves_to
 
     def _get_render_data_(self, *, iteration):
         render_data = super()._get_render_data_(iteration=iteration)
@@ -213,7 +218,7 @@ def opt(v) -> str:
 
 def cfg_line(c) -> str:
     return " ".join([
-        opt(c["count"]), str(c["loops"]), toks(c["cache"]), toks(c["padding"]),
+        ("postponed " if c.get("postponed") else "") + opt(c["count"]), str(c["loops"]), toks(c["cache"]), toks(c["padding"]),
         "none" if c["args"] is None else "some " + toks(c["args"]),
         toks(c["size"]), str(c["dur"]), str(c["rframe"]), toks(c["term"]),
         str(c["stream"]), opt(c["stop_at"]), opt(c["fail_at"]),
@@ -285,7 +290,8 @@ class RealRun:
     def __init__(self, c):
         set_term(*c["term"])
         PYVAR["mode"], PYVAR["ctr"] = c.get("pyvar", 0), 0
-        self.r = r = TR(c["count"], mk_dur(c["dur"]) if c["count"] != 1 else 1, c["size"], c["stream"], c["stop_at"], c["fail_at"])
+        self.r = r = TR(c["count"], mk_dur(c["dur"]) if c["count"] != 1 else 1, c["size"], c["stream"], c["stop_at"], c["fail_at"],
+                           postponed=bool(c.get("postponed")) and c["count"] != 1)
         if c["rframe"]:
             r.seek(c["rframe"])
         self.noise = 0
@@ -632,6 +638,8 @@ def gen_case(rng, tier, flavour):
         "stream": rng.choice([0, 1, 2, 3, 5, 8]) if n is None else 0,
         "stop_at": None, "fail_at": None,
         "ctor": rng.choice([0, 0, 1]), "finalize": rng.choice([0, 1]),
+        # constructed with FrameCount.POSTPONED, resolved by the `frame_count` property to `count`
+        "postponed": rng.random() < 0.25,
     }
     if rng.random() < 0.08:
         hi = n if n is not None else max(1, c["stream"])
@@ -644,6 +652,7 @@ def gen_case(rng, tier, flavour):
             c["cache"] = ["n", rng.choice([0, -1])]
         elif which == "count":
             c["count"], c["rframe"], c["stream"] = 1, 0, 0
+            c["postponed"] = False  # a postponed count resolving to 1 is invalid by the documentation
             n = 1
         else:
             c["args"] = ["foreign"]
@@ -898,7 +907,7 @@ def shrink_history(c, ops, key):
                 else:
                     i += 1
     c = dict(c)
-    for k, v in (("rframe", 0), ("args", None), ("ctor", 0), ("padding", ["exact", 0, 0, 0, 0, 0]), ("dur", 7),
+    for k, v in (("postponed", False), ("rframe", 0), ("args", None), ("ctor", 0), ("padding", ["exact", 0, 0, 0, 0, 0]), ("dur", 7),
                  ("cache", ["b", 0]), ("loops", 1), ("stop_at", None), ("fail_at", None)):
         if c.get(k) != v:
             c2 = dict(c)
